@@ -21,6 +21,11 @@ CHECKS = {
    "Every built-in handler kind x body-format code x body shape is dispatched through handle / handle_with_ctx / handle_view behind 0..3 forwarding middlewares registered at shuffled positions and must give the same normalised response and handler observations as the middleware-free router, with each middleware running exactly once; recording struct and registry mounts at generated roots must be reached iff the path equals the root or extends it at '/', an exactly registered path wins, and the struct sees exactly the independent tokenizer's reference tokens for depths 0..40 (incl. 15/16/17).",
    "Malformed escapes and trailing-slash roots are outside the quantifier; registry/struct mount overlap precedence is not asserted.",
    "DESIGN.md §4 C07"),
+ "C08": ("exploration",
+   "property-based testing generic over the element type: bulk-vs-serde byte identity, cross-decoding round trips on raw bit patterns, streaming-vs-buffered differential, exhaustive (type x query length x misalignment) grid through the borrowing route with pointer-provenance checks; libFuzzer (ASan) target on the borrowing decoder in thorough",
+   "For 16 element types and slices built from raw generated bits, the bulk body must equal the serde body byte-for-byte (len>0), each decoder must read the other encoder's output bit-for-bit (every len incl. 0), the streaming writers must frame identically to the builders, the aligned form must yield the same bits through a with_typed_slice_ref route at every (query length 0..64, buffer misalignment 0..7) with aligned payloads borrowed and never a misaligned borrow, and wrong element types/formats must be rejected.",
+   "u128/i128/half floats only on bulk-only clauses; borrowing observed via the address handed to the route closure.",
+   "DESIGN.md §4 C08"),
  "C11": ("exploration",
    "model-based testing: bounded-exhaustive operation sequences plus proptest random histories against a u128 reference model checked after every step",
    "All operation sequences up to the tier's length over a 15-operation small-scope alphabet (exhaustive) and random histories up to 200 ops over 64-bit values with hostile acks run against TransferControl; offsets(), cancel state and the credit predicate (probed in the promised direction) must match the model after every step; a documented-loop producer is simulated under hostile acks.",
